@@ -214,8 +214,23 @@ Definition complete_struct_or_union (u : bool) (sflags0 pack0 : Z) (ms : list me
   let '(sflags, pack) := effective_flags sflags0 pack0 in
   bind (field_loop u sflags pack ms lstate0) (fun st => Ok (finish_struct st)).
 
-(* the whole declaration tree: nested types are completed first (as cdef does), arrays take
-   size len*itemsize and the alignment of their item type (get_alignment's `goto retry`) *)
+(* the field loop of one aggregate; `rec` completes a member's type (nested types are completed
+   first, as cdef does) *)
+Section Loop.
+  Variable rec : ctype -> res tinfo.
+  Variables (u : bool) (sflags pack : Z).
+  Fixpoint mloop (fs : list (bool * ctype * Z)) (st : lstate) : res lstate :=
+    match fs with
+    | [] => Ok st
+    | (named, ft, bits) :: fs' =>
+        bind (rec ft) (fun fi =>
+        bind (field_step u sflags pack (match fs' with [] => true | _ => false end) st named ft fi bits)
+             (mloop fs'))
+    end.
+End Loop.
+
+(* the whole declaration tree; arrays take size len*itemsize and the alignment of their item
+   type (get_alignment's `goto retry`) *)
 Fixpoint cffi_layout (t : ctype) : res tinfo :=
   match t with
   | TPrim s a _ => Ok (TI s a false false false [])
@@ -226,16 +241,7 @@ Fixpoint cffi_layout (t : ctype) : res tinfo :=
   | TAgg u packed fields =>
       let '(sflags0, pack0) := finish_backend_flags packed in
       let '(sflags, pack) := effective_flags sflags0 pack0 in
-      bind ((fix loop (fs : list (bool * ctype * Z)) (st : lstate) {struct fs} : res lstate :=
-               match fs with
-               | [] => Ok st
-               | (named, ft, bits) :: fs' =>
-                   bind (cffi_layout ft) (fun fi =>
-                   bind (field_step u sflags pack (match fs' with [] => true | _ => false end)
-                                    st named ft fi bits)
-                        (loop fs'))
-               end) fields lstate0)
-           (fun st => Ok (finish_struct st))
+      bind (mloop cffi_layout u sflags pack fields lstate0) (fun st => Ok (finish_struct st))
   end.
 
 (* ---- observation functions used by the correspondence check and by the theorems *)
@@ -251,4 +257,94 @@ Definition observe (r : res tinfo) : option (Z * Z * list (Z * Z * Z * Z)) :=
   | Ok ti => Some (ti_size ti, ti_align ti,
                    map (fun c => (cf_offset c, cf_bitshift c, cf_bitsize c, cf_flags c)) (ti_fields ti))
   | Err _ => None
+  end.
+
+(* ---- wire format for the correspondence check.  Monomorphic constructors only: Coq elaborates a
+   300-case literal written with list/pair notations in ~10 s, and the same data in this form in
+   a fraction of that (no implicit arguments to infer). *)
+Inductive wtype :=
+| WPrim (s a : Z) (bf : bool)
+| WArr (item : wtype) (n : Z)
+| WAgg (u : bool) (pack : Z) (fs : wfields)
+with wfields :=
+| WNil
+| WCons (named : bool) (t : wtype) (bits : Z) (rest : wfields).
+
+Fixpoint of_wire (w : wtype) : ctype :=
+  match w with
+  | WPrim s a b => TPrim s a b
+  | WArr i n => TArr (of_wire i) n
+  | WAgg u p fs => TAgg u p (of_wfields fs)
+  end
+with of_wfields (fs : wfields) : list (bool * ctype * Z) :=
+  match fs with
+  | WNil => []
+  | WCons nm t b r => (nm, of_wire t, b) :: of_wfields r
+  end.
+
+Inductive wobs := ONil | OCons (a b c d : Z) (rest : wobs).
+Inductive wres := WNone | WSome (size align : Z) (fs : wobs).
+
+Fixpoint of_wobs (o : wobs) : list (Z * Z * Z * Z) :=
+  match o with ONil => [] | OCons a b c d r => (a, b, c, d) :: of_wobs r end.
+Definition of_wres (r : wres) : option (Z * Z * list (Z * Z * Z * Z)) :=
+  match r with WNone => None | WSome s a fs => Some (s, a, of_wobs fs) end.
+(* for the spec side: (size, alignment, [(a, b)]) *)
+Definition of_gres (r : wres) : Z * Z * list (Z * Z) :=
+  match r with
+  | WNone => (-1, -1, [])
+  | WSome s a fs => (s, a, map (fun x => (fst (fst (fst x)), snd (fst (fst x)))) (of_wobs fs))
+  end.
+
+Fixpoint wobs_eqb (x y : wobs) : bool :=
+  match x, y with
+  | ONil, ONil => true
+  | OCons a b c d r, OCons a' b' c' d' r' =>
+      (a =? a') && (b =? b') && (c =? c') && (d =? d') && wobs_eqb r r'
+  | _, _ => false
+  end.
+Definition wres_eqb (x y : wres) : bool :=
+  match x, y with
+  | WNone, WNone => true
+  | WSome s a f, WSome s' a' f' => (s =? s') && (a =? a') && wobs_eqb f f'
+  | _, _ => false
+  end.
+Definition to_wres (o : option (Z * Z * list (Z * Z * Z * Z))) : wres :=
+  match o with
+  | None => WNone
+  | Some (s, a, l) => WSome s a (fold_right (fun x r => let '(a, b, c, d) := x in OCons a b c d r) ONil l)
+  end.
+Definition to_gres (o : Z * Z * list (Z * Z)) : wres :=
+  let '(s, a, l) := o in WSome s a (fold_right (fun x r => OCons (fst x) (snd x) 0 0 r) ONil l).
+
+(* a whole batch of correspondence cases, monomorphic as well; the result is the list of the
+   indices of the cases on which `f` disagrees with the recorded output *)
+Inductive wcases := CNil | CCons (w : wtype) (r : wres) (rest : wcases).
+Fixpoint wmismatches (f : wtype -> wres) (i : Z) (cs : wcases) : list Z :=
+  match cs with
+  | CNil => []
+  | CCons w r rest =>
+      let tl := wmismatches f (i + 1) rest in
+      if wres_eqb (f w) r then tl else i :: tl
+  end.
+Definition model_obs (w : wtype) : wres := to_wres (observe (cffi_layout (of_wire w))).
+Definition spec_obs (w : wtype) : wres := to_gres (gobserve (gcc_layout (of_wire w))).
+
+(* ---- the other conventions (MSVC, ARM, big endian, packed bit-fields): the backend function
+   accepts explicit sflags/pack, so these branches of the model are tied to the C code by the
+   correspondence check too (no theorem is claimed about them).  The top-level `pack` slot of the
+   wire term carries sflags*65536 + pack; member types are completed with the default flags. *)
+Fixpoint members_of (fs : list (bool * ctype * Z)) : res (list member) :=
+  match fs with
+  | [] => Ok []
+  | (named, ft, bits) :: fs' =>
+      bind (cffi_layout ft) (fun fi =>
+      bind (members_of fs') (fun ms => Ok ((named, (ft, fi), bits) :: ms)))
+  end.
+Definition alt_obs (w : wtype) : wres :=
+  match of_wire w with
+  | TAgg u code fs =>
+      to_wres (observe (bind (members_of fs)
+                             (complete_struct_or_union u (code / 65536) (code mod 65536))))
+  | _ => WNone
   end.
